@@ -740,12 +740,21 @@ class Interp:
         self.ext_calls = {}
         self.effects = set()
         self.budget = None
+        self.partitions = {}        # fn name -> {variable names}: trace partitioning directives
+        self.partitions_found = {}
 
     # ---- bookkeeping
     def info(self, body):
         i = self.infos.get(body['id'])
         if i is None:
             i = BodyInfo(body, self.types)
+            names = self.partitions.get(body['name'])
+            i.part_locals = {}
+            if names:
+                for nme, p in body['dbg']:
+                    if nme in names and not p['p']:
+                        i.part_locals[p['l']] = nme
+                self.partitions_found.setdefault(body['name'], set()).update(i.part_locals.values())
             self.infos[body['id']] = i
         return i
 
@@ -1741,6 +1750,15 @@ class InterpOps:
                             return False
             return True
         if op == 'Ne':
+            # x & 2^k != 0 and x < 2^(k+1)  =>  x >= 2^k
+            for p_, q_ in ((ta, tb), (tb, ta)):
+                if q_[0] == 'c' and q_[1] == 0 and p_[0] == 'BitAnd' and len(p_) == 3 and p_[2][0] == 'c' \
+                        and isinstance(p_[2][1], int) and p_[2][1] > 0 and p_[2][1] & (p_[2][1] - 1) == 0:
+                    xi = self.ival(st, p_[1])
+                    m = p_[2][1]
+                    if xi is not None and xi[0] >= 0 and xi[1] < 2 * m:
+                        if not self.refine_term(st, p_[1], max(xi[0], m), xi[1]):
+                            return False
             if bl == bh:
                 if al == ah == bl:
                     return False
@@ -2153,6 +2171,8 @@ class CallMixin:
         for st, v in rets:
             for key in [k for k in st.cells if k[0] == d]:
                 del st.cells[key]
+            if nf.info.part_locals and st.tags:
+                st.tags = frozenset(tg for tg in st.tags if not (tg[0] == 'P' and tg[1] == nf.pathid))
             if not discard:
                 self.write_dest(st, frame, t, v)
             else:
@@ -2180,7 +2200,7 @@ class CallMixin:
         """analyse a closure passed to library code as if it were called 0..n times with unknown
         (or given) arguments; returns state after, and the join of its results"""
         env = self.operand(st, frame, t['args'][idx])
-        fake_t = {'dest': {'l': 0, 'p': []}, 'args': [], 'sp': t.get('sp')}
+        fake_t = {'dest': {'l': 0, 'p': []}, 'args': [], 'sp': t.get('sp'), 't': 0, 'callee': None, 'k': 'call'}
         argc = body['argc']
 
         def mk(s2):
@@ -2421,11 +2441,20 @@ class Engine(Interp, InterpOps, CallMixin, ZoneMixin):
         return (s.tags, frozenset(sig))
 
     def limit(self, sts, K=None, site=None, depth=None):
+        """at most K disjuncts per trace partition (states of different partitions are never merged)"""
         sts = self.dedupe(sts)
         K = K or self.K
         if len(sts) <= K:
             return sts
-        return self.agglomerate(sts, K, site, depth)
+        groups = {}
+        for s in sts:
+            groups.setdefault(s.tags, []).append(s)
+        if len(groups) == 1:
+            return self.agglomerate(sts, K, site, depth)
+        out = []
+        for tg in sorted(groups, key=lambda x: sorted(map(repr, x))):
+            out.extend(self.agglomerate(groups[tg], K, site, depth))
+        return out
 
     def agglomerate(self, sts, K, site, depth=None):
         """greedy merge of the two closest states until at most K remain.  Distance is
@@ -2438,7 +2467,15 @@ class Engine(Interp, InterpOps, CallMixin, ZoneMixin):
             # far too many for pairwise comparison: fold states of equal shape first
             groups = {}
             for s in sts:
-                groups.setdefault(self.shape_sig(s), []).append(s)
+                sig = self.shape_sig(s)
+                if depth is not None:
+                    try:
+                        outer = frozenset((k, v) for k, v in s.cells.items()
+                                          if not (k[0].__class__ is int and k[0] >= depth))
+                    except TypeError:
+                        outer = None
+                    sig = (sig, outer)
+                groups.setdefault(sig, []).append(s)
             sts = []
             for g in groups.values():
                 while len(g) > 2:
@@ -2473,24 +2510,42 @@ class Engine(Interp, InterpOps, CallMixin, ZoneMixin):
                 fs.add(('tag', tg))
             return frozenset(fs)
 
+        nd = (depth if depth is not None else 0) + 2
+
         def dist(a, b):
+            # lexicographic by frame depth: distinctions held by older frames live longest and are
+            # the last to be given up; refinements / tags count with the innermost frame
             df = a ^ b
-            if depth is None:
-                return (len(df), 0)
-            inner = 0
+            vec = [0] * nd
             for it in df:
                 k = it[0]
-                if k.__class__ is tuple and k[0] == depth:
-                    inner += 1
-            return (len(df) - inner, inner)
+                if k.__class__ is tuple:
+                    d = k[0]
+                    if d.__class__ is int:
+                        vec[d if d < nd - 1 else nd - 2] += 1
+                    else:
+                        vec[0] += 1
+                else:
+                    vec[nd - 1] += 1
+            return tuple(vec)
         live = {i: s for i, s in enumerate(sts)}
         isets = {i: items_of(s) for i, s in live.items()}
+        shapes = {i: self.shape_sig(s) for i, s in live.items()}
+        dist0 = dist
+
+        def dist(a, b, i=None, j=None):
+            # states whose enum-valued cells hold different variants (Ok vs Err, Some vs None)
+            # are merged only when nothing else is left
+            d = dist0(a, b)
+            if i is not None and shapes[i] != shapes[j]:
+                return (1,) + d
+            return (0,) + d
         heap = []
         ids = sorted(live)
         for x in range(len(ids)):
             ix = isets[ids[x]]
             for y in range(x + 1, len(ids)):
-                heap.append((dist(ix, isets[ids[y]]), ids[x], ids[y]))
+                heap.append((dist(ix, isets[ids[y]], ids[x], ids[y]), ids[x], ids[y]))
         heapq.heapify(heap)
         nxt = len(sts)
         while len(live) > K and heap:
@@ -2507,8 +2562,9 @@ class Engine(Interp, InterpOps, CallMixin, ZoneMixin):
             if dup:
                 continue
             im = items_of(m)
+            shapes[nxt] = self.shape_sig(m)
             for o, io in isets.items():
-                heapq.heappush(heap, (dist(io, im), o, nxt))
+                heapq.heappush(heap, (dist(io, im, o, nxt), o, nxt))
             live[nxt] = m
             isets[nxt] = im
             nxt += 1
@@ -2554,16 +2610,45 @@ class Engine(Interp, InterpOps, CallMixin, ZoneMixin):
                             walk(x)
             elif k == 'O':
                 for x in v[2]:
-                    if isinstance(x, tuple) and x and x[0] in ('R', 'A', 'E', 'S', 'O'):
+                    if isinstance(x, tuple) and x and x[0] in ('R', 'A', 'E', 'S', 'O', 'T'):
                         walk(x)
+            elif k == 'T':
+                if v[2] is not None:
+                    torig.add(v[2])     # a lazily expanded value: may hold references with derived origins
+        torig = set()
         for k, v in cells.items():
             if k not in candset and v[0] not in ('I', 'F'):
                 walk(v)
-        while stack:
-            c = stack.pop()
-            v = cells.get(c)
-            if v is not None and v[0] not in ('I', 'F'):
-                walk(v)
+
+        def drain():
+            while stack:
+                c = stack.pop()
+                v = cells.get(c)
+                if v is not None and v[0] not in ('I', 'F'):
+                    walk(v)
+        drain()
+        ocand = [k for k in cand if k[0] == 'o']
+        changed = bool(ocand) and bool(torig)
+        while changed:
+            changed = False
+            for c in ocand:
+                if c in reached:
+                    continue
+                x = c[1]
+                hit = False
+                while True:
+                    if x in torig:
+                        hit = True
+                        break
+                    if x.__class__ is tuple and len(x) == 2:
+                        x = x[0]
+                    else:
+                        break
+                if hit:
+                    reached.add(c)
+                    stack.append(c)
+                    drain()
+                    changed = True
         for k in cand:
             if k not in reached:
                 del cells[k]
@@ -2621,7 +2706,15 @@ class Engine(Interp, InterpOps, CallMixin, ZoneMixin):
                 return True
             if op == 'bits':
                 return True      # positional: a re-read of the same bits yields the same term
-            if op in ('o', 'j', 'len', 'e', 'discr', 'p'):
+            if op in ('o', 'len'):
+                # values reachable from an entry parameter are re-materialised with the same term
+                o = t[1]
+                while o.__class__ is tuple and len(o) == 2:
+                    if o[0] == 'p' and o[1].__class__ is str:
+                        return True
+                    o = o[0]
+                return False
+            if op in ('j', 'e', 'discr', 'p'):
                 return False
             ok = True
             for x in t[1:]:
@@ -2703,6 +2796,18 @@ class Engine(Interp, InterpOps, CallMixin, ZoneMixin):
         return exits
 
     def run_loop(self, frame, h, in_states, quiet, rets):
+        groups = {}
+        for s in in_states:
+            groups.setdefault(s.tags, []).append(s)
+        if len(groups) <= 1:
+            return self.run_loop1(frame, h, in_states, quiet, rets)
+        exits = {}
+        for tg in sorted(groups, key=lambda x: sorted(map(repr, x))):
+            for dst, sts in self.run_loop1(frame, h, groups[tg], quiet, rets).items():
+                exits.setdefault(dst, []).extend(sts)
+        return exits
+
+    def run_loop1(self, frame, h, in_states, quiet, rets):
         info = frame.info
         blocks = info.loop_blocks[h]
         exits = {}
@@ -2857,6 +2962,10 @@ class Engine(Interp, InterpOps, CallMixin, ZoneMixin):
                         break
                     if not pl['p']:
                         st.cells[(frame.depth, pl['l'])] = v
+                        if frame.info.part_locals and pl['l'] in frame.info.part_locals and v[0] == 'I' and v[1] == v[2]:
+                            nm = frame.info.part_locals[pl['l']]
+                            st.tags = frozenset(tg for tg in st.tags if not (tg[0] == 'P' and tg[1] == frame.pathid and tg[2] == nm)) \
+                                | {('P', frame.pathid, nm, v[1])}
                     else:
                         lv = self.lvalue(st, frame, pl)
                         weak = lv is not None and any(isinstance(e, tuple) and e[0] == 'i*' for e in lv[1])
